@@ -14,7 +14,8 @@ LEVEL = 'fault_enumeration'
 MOD = 'sim.scen_c15'
 
 RETYPE_VALUES = [None, True, 0, -1, 7, 10 ** 6, 1.5, '', 'x', [], {}, [1],
-                 {'a': 1}, 'l1\nl2 <br>\n"q\'&amp;']
+                 {'a': 1}, 'l1\nl2 <br>\n"q\'&amp;',
+                 'C:\\dir \\emph{x} \\1 \\g<0> %s {0} $&']
 
 GARBAGE = [
     b'', b' \n\t ', b'null', b'[]', b'42', b'"matches"', b'{}',
@@ -144,8 +145,9 @@ def enumerate_single_faults(answer_obj, text, cfg):
         # excerpt fields get 10**6 as their "huge" value (bound of the
         # simulation, see DESIGN.md §4 C15)
         huge = 10 ** 6 if 'context' in p else 2 ** 31
-        for nv in sorted({v - 1, v + 1, v * 2, n - 1, n, n + 1, -n, huge,
-                          -huge, n - v, n - v + 1}):
+        for nv in sorted({v - 1, v + 1, v * 2, n - 1, n, n + 1, n + 2, n + 3,
+                          n + 7, 2 * n, -n, huge, -huge, n - v, n - v + 1,
+                          n - v + 2}):
             if nv != v:
                 faults.append({'kind': 'retype_field', 'path': p, 'value': nv,
                                'perturb': True})
@@ -200,6 +202,29 @@ def fixed_bases():
                                  'nonascii': True, 'ensure_ascii': ea,
                                  'subid': True, 'urls': True}})
     return out
+
+
+def selftest_plans(seed, n):
+    """A seeded sample of fault plans (for the determinism self-test)."""
+    bases = fixed_bases()[:3:2]
+    for b in range(2):
+        bases.append(gen_base(core.run_rng(seed, PID, 'base', b),
+                              shellscen.MODES[b % 5], ml=(b == 0)))
+    plans = []
+    for bi, b in enumerate(bases):
+        b['_want_subs'] = True
+        r = evaluate(b)
+        subs = r.get('subs') or []
+        if r['verdict'] != 'ok' or not subs:
+            continue
+        rng = core.run_rng(seed, PID, 'selftest', bi)
+        k = rng.randrange(len(subs))
+        text, lang, tag = subs[k]
+        obj = world.build_answer(text, lang, tag, b['peer'])
+        faults, _ = enumerate_single_faults(obj, text, b['peer'])
+        for f in rng.sample(faults, min(len(faults), max(1, n // len(bases)))):
+            plans.append(with_fault(b, k, f, len(plans)))
+    return plans[:n]
 
 
 def run(seed, tier, budget_s):
@@ -257,31 +282,30 @@ def run(seed, tier, budget_s):
             obj = world.build_answer(text, lang, tag, b['peer'])
             cand.append((k, obj, text))
         with_m = [c for c in cand if c[1]['matches']] or cand
-        later = [c for c in with_m if c[0] > 0]
-        k, obj, text = frng.choice(later if later and frng.random() < 0.7
-                                   else with_m)
+        # the main sweep lands on the LAST invocation with matches (all earlier
+        # parts have accumulated), a second, smaller one on another invocation
+        k, obj, text = with_m[-1]
         faults, nbytes = enumerate_single_faults(obj, text, b['peer'])
         sweep_sizes.append(len(faults))
         if quick:
-            # stratified sample: every deletion and garbage output, and a
-            # seeded share of retypings, perturbations and truncations
-            strata = {}
-            for f in faults:
-                key = f['kind'] + (':perturb' if f.get('perturb') else '')
-                strata.setdefault(key, []).append(f)
-            quota = {'delete_field': 10 ** 9, 'garbage': 10 ** 9,
-                     'retype_field': 260, 'retype_field:perturb': 80,
-                     'truncate': 160}
-            chosen = []
-            for key in sorted(strata):
-                fs = strata[key]
-                chosen += (fs if len(fs) <= quota[key]
-                           else frng.sample(fs, quota[key]))
+            # every deletion, retyping, perturbation and garbage output; a
+            # seeded share of the byte truncations
+            trunc = [f for f in faults if f['kind'] == 'truncate']
+            chosen = [f for f in faults if f['kind'] != 'truncate']
+            chosen += frng.sample(trunc, min(len(trunc), 160))
         else:
             chosen = faults
             complete_sweeps += 1
         for f in chosen:
             plans.append(with_fault(b, k, f, nxt()))
+        others = [c for c in cand if c[0] != k]
+        if others:
+            k2, obj2, text2 = frng.choice(others)
+            f2, _ = enumerate_single_faults(obj2, text2, b['peer'])
+            f2 = [f for f in f2 if f.get('perturb') or f['kind'] == 'garbage'
+                  or (f['kind'] == 'delete_field' and len(f['path']) <= 3)]
+            for f in f2:
+                plans.append(with_fault(b, k2, f, nxt()))
         if len(batch.samples) < 3:
             batch.samples.append({
                 'base_argv': b['argv'], 'invocation_k': k,
@@ -308,6 +332,26 @@ def run(seed, tier, budget_s):
             for pr in pairs:
                 plans.append(with_ranges(b, 0, [pr], nxt()))
                 sweep_ranges += 1
+
+    # ---- stage 3b: offsets around the end of each part, at every invocation
+    #      of the multi-part bases (in range of the accumulated text, out of
+    #      range of the part, and just beyond everything)
+    boundary_cases = 0
+    for bi, (b, subs) in enumerate(usable):
+        if len(subs) < 2:
+            continue
+        lens = [len(t) for (t, _, _) in subs]
+        total = sum(lens) + 2 * len(lens)
+        for k, n in enumerate(lens):
+            before = sum(lens[:k]) + 2 * k
+            offs = {n - 2, n - 1, n, n + 1, n + 2, n + 3, n + 4,
+                    total - before - 2, total - before - 1, total - before,
+                    total - before + 1, before, before + n, total - 1, total,
+                    total + 1}
+            for o in sorted(x for x in offs if x >= 0):
+                for l in (0, 1, 4):
+                    plans.append(with_ranges(b, k, [[o, l]], nxt()))
+                    boundary_cases += 1
 
     # ---- stage 4: seeded multi-fault combinations
     n_multi = 300 if quick else 6000
@@ -359,6 +403,7 @@ def run(seed, tier, budget_s):
     extra = {'per_base_single_fault_space_sizes': sweep_sizes[:12],
              'complete_single_fault_sweeps': complete_sweeps,
              'range_sweep_cases': sweep_ranges,
+             'part_boundary_offset_cases': boundary_cases,
              'multi_fault_cases': n_multi if usable else 0}
     return core.finish(__import__('sim.scen_c15', fromlist=['x']), batch, rule,
                        assumptions, components, extra,
